@@ -1141,7 +1141,7 @@ func c04DeepNesting(r *rand.Rand, tier string, emit func(Case)) {
 func init() {
 	register(Family{
 		Name: "deep-nesting", Prop: "C04",
-		Rule: "documents and values nested 500 / 999 / 1000 / 1001 / 1002 / 1003 / 1500 / 2000 / 3000 / 5000 / 9999 / 10 000 levels (thorough: also random depths) -- arrays, objects, alternating, with sibling members at every level; innermost container empty or holding a string / null / a number / an empty container -- written back through every route: -o of the unmodified document, json() of the whole document, -o of a sub-document selected with -r and of a root that a selector builds around it, json() of a value the program builds by wrapping a seed in a loop, -o of a document into which such a value was stored, and the REAL BINARY with -o FILE and -o - (input file or stdin). Oracle: the text parses with encoding/json to the input value / the tree the generator built (encoding/json reads 10 000 levels; its encoder has no limit for acyclic values). Up to 1 003 levels (and two cases at 2 000) the full text is compared with the model; from 2 000 levels on (the indented text grows with the square of the depth: 8 MB at 2 000, 200 MB at 10 000) the worker answers with the compact form, the length and whether the text is exactly the canonical two-space indentation (run flag c, cli flag z). A document of 10 001 levels must be a JSON input error",
+		Rule: "documents and values nested 500 / 999 / 1000 / 1001 / 1002 / 1003 / 1500 / 2000 / 3000 / 5000 / 9999 / 10 000 levels (thorough: also random depths) -- arrays, objects, alternating, with sibling members at every level; innermost container empty or holding a string / null / a number / an empty container -- written back through every route: -o of the unmodified document, json() of the whole document, -o of a sub-document selected with -r and of a root that a selector builds around it, json() of a value the program builds by wrapping a seed in a loop, -o of a document into which such a value was stored, and the REAL BINARY with -o FILE and -o - (input file or stdin). Oracle: the text parses with encoding/json to the input value / the tree the generator built (encoding/json reads 10 000 levels; json.MarshalIndent fails beyond them: family marshal-indent-depth-limit). Up to 1 003 levels (and two cases at 2 000) the full text is compared with the model; from 2 000 levels on (the indented text grows with the square of the depth: 8 MB at 2 000, 200 MB at 10 000) the worker answers with the compact form, the length and whether the text is exactly the canonical two-space indentation (run flag c, cli flag z). A document of 10 001 levels must be a JSON input error",
 		Gen:  c04DeepNesting,
 	})
 }
